@@ -588,6 +588,20 @@ def run(ctx):
     ctx.guarded("C14.ids", rule_ids, ctx)
     ctx.guarded("C14.bundle", rule_bundle, ctx, ent)
     ctx.guarded("C14.login", rule_login, ctx)
+    # "a key consumed by a first message cannot be used again" over a crash: the removal (and every other write of the
+    # prekey store: the sent flag, new keys) is committed on every path - C13.commit's instances for the prekey stores
+    ctx.rule("C14.durable", "prekey store writes (consume, mark sent, store) are committed on every path (C13.commit adopted for the prekey stores)", floor=3)
+    from ..report import Ctx as _Ctx, Instance as _Inst
+    scratch = _Ctx(ctx.repo, "C13", ctx.tier)
+    scratch.rule("C13.commit", "", 0)
+    scratch.rule("C13.replace", "", 0)
+    try:
+        c13.rule_commit_replace(scratch, c13.StoreModel(scratch))
+        for inst in scratch.instances:
+            if inst.rule == "C13.commit" and "prekeystore" in inst.file:
+                ctx.instances.append(_Inst("C14.durable", inst.file, inst.function, inst.construct, inst.verdict, inst.what, inst.line, inst.extra))
+    except Exception as x:
+        ctx.undecided("C14.durable", where(PKS, "LitePreKeyStore", None), "prekey store writes", "store model not available: %s" % x)
     # the control layer matches the upload's result by iq id only: ids must be unique across entity classes (C08.id), adopted
     from . import c08
     ctx.adopt_from("C08", [(c08.rule_id, ())], {"C08.id": "C14.sent"})
